@@ -13,6 +13,7 @@ import (
 	"encoding/hex"
 	"fmt"
 	"os"
+	"runtime/debug"
 	"strings"
 )
 
@@ -66,7 +67,21 @@ func main() {
 func run(cmd func([]string) string, fields []string) (res string) {
 	defer func() {
 		if r := recover(); r != nil {
-			res = "PANIC " + hx(fmt.Sprint(r))
+			// the panic value and the innermost frames outside the Go runtime (to tell where it was raised)
+			var frames []string
+			for _, l := range strings.Split(string(debug.Stack()), "\n") {
+				if strings.HasPrefix(l, "\t") || strings.HasPrefix(l, "goroutine") || strings.HasPrefix(l, "runtime") || strings.HasPrefix(l, "panic(") || strings.Contains(l, "zzverif/harness") {
+					continue
+				}
+				if i := strings.LastIndex(l, "("); i > 0 {
+					l = l[:i]
+				}
+				frames = append(frames, l)
+				if len(frames) == 3 {
+					break
+				}
+			}
+			res = "PANIC " + hx(fmt.Sprint(r)+" @ "+strings.Join(frames, " < "))
 		}
 	}()
 	return cmd(fields)
